@@ -20,7 +20,8 @@ QUERIES = ["edge.calc_error", "edge.calc_chi2", "edge.calc_jacobians", "BaseEdge
            "pose.jacobians", "pose.accessors", "pose.copy-independence", "edge.is_valid", "plot"]
 RULE = ("cases from rng(seed, 15, 0, i): a cluster graph (all pose types, parallel edges, landmarks with offsets, custom edges with numerical Jacobians; every 5th graph has no fixed vertex and is anchored by pose priors) and a history of "
         "20..50 calls drawn from " + ", ".join(QUERIES) + " plus optimize(max_iter 1..3); snapshot compared around each call. distinct = fingerprint(spec, history); "
-        "non-trivial = history with >= 1 numerical-Jacobian call on an SE(2)/SE(3) vertex and >= 1 optimize run.")
+        "non-trivial = history with >= 1 numerical-Jacobian call on an SE(2)/SE(3) vertex and >= 1 optimize run."
+        " later additions: plot queries, operations on another live graph (edited in place / snapshot graph sharing the edges optimized), SE(3) landmark edges without offset id, process-wide settings around optimize.")
 REQ = ["eval:query-leaves-state-unchanged", "eval:repeat-returns-identical", "eval:optimize-changes-only-poses", "eval:operands-unchanged", "eval:copy-independent"] + ["query:" + q for q in QUERIES] + [
     "class:numerical_jacobian_on_SE_vertex", "class:parallel_edges", "class:no_fixed_vertex_prior_anchored", "class:graph_loaded_from_g2o", "class:shared_pose_storage", "class:estimate_object_reused_as_initial_pose", "class:numerical_jacobian_at_stored_plus_pi", "class:snapshot_graph_shares_the_edge_objects", "class:other_graph_edited_in_place_by_its_owner", "class:snapshot_graph_(shares_the_edge_objects)_optimized"]
 PLAN = {
